@@ -423,6 +423,8 @@ func (c *Client) recv(keepaliveQuit chan<- struct{}) {
 		case stanza.StreamClosePacket:
 			// TCP messages should arrive in order, so we can expect to get nothing more after this occurs
 			c.transport.ReceivedStreamClose()
+			// The stream is over, whoever closed it first: the session is disconnected
+			c.disconnected(c.Session.SMState)
 			return
 		case stanza.Message, stanza.Presence, *stanza.IQ:
 			// Only stanzas are counted (XEP-0198): nonzas such as <a/> or stream features are not
